@@ -16,6 +16,12 @@ func (k Keeper) EndBlocker(ctx sdk.Context) {
 
 	// NOTE: ignore end of block if coinomics is disabled
 	if !params.EnableCoinomics {
+		// Forget the reference timestamp while minting is off: the first block after a
+		// re-activation only records its time (as the first block after genesis does)
+		// instead of minting for the whole period during which minting was disabled.
+		if !k.GetPrevBlockTS(ctx).IsZero() {
+			k.SetPrevBlockTS(ctx, sdk.ZeroInt())
+		}
 		return
 	}
 
